@@ -173,9 +173,11 @@ BOUNDARY = ['exact_fill', 'exact_fill_root', 'exact_fill_plus', 'ce_gap_plus', '
 
 
 def run(ctx):
-    common.proof_stage(ctx, MODULE, THEOREMS, extra_targets=['theories/Spec/FsCases.vo'])
+    common.proof_stage(ctx, MODULE, common.theorems_of(MODULE), extra_targets=['theories/Spec/FsCases.vo'])
     common.setup_impl_path()
     inode_source_oracle(ctx)
+    from harness.props import accountnsleaf
+    accountnsleaf.correspondence(ctx)
     n = 240 if ctx.tier == 'quick' else 3000
     system_check(ctx, 'C01', n, dict(allow_refusals=False), nops=(5, 30) if ctx.tier == 'quick' else (10, 80),
                  extra=recipe_extras(ctx, BOUNDARY, 3 if ctx.tier == 'quick' else 25))
